@@ -1,5 +1,5 @@
 //@PROBE file=src/utils/kalman/kalman_2d_box.rs test=verif_probe_kalman_box_c07 clauses=kalman_box
-//@BOUND 60 pseudo-random trajectories of 40..=300 steps (moving, accelerating, jittering, growing/shrinking boxes; rotated, axis-aligned (angle None) and mixed; coordinates 1..1e4; steps without a measurement), position/velocity weights {1/20, 1/160}, {1/10, 1/80}, {0.5, 0.05}; after every initiate / predict / update the f32 state is compared with an independent f64 textbook Kalman filter (tolerance 2e-3 relative + 2e-3 absolute on the mean; distance 1% + 1e-3), covariance symmetric and positive definite (f64 Cholesky)
+//@BOUND 60 pseudo-random trajectories of 40..=300 steps (moving, accelerating, jittering, growing/shrinking boxes; rotated, axis-aligned (angle None) and mixed; coordinates 1..1e4; steps without a measurement; plus boxes standing still on exactly representable values for 8 frames - zero innovation - and then accelerating, with the distance of offset boxes compared at every step), position/velocity weights {1/20, 1/160}, {1/10, 1/80}, {0.5, 0.05}; after every initiate / predict / update the f32 state is compared with an independent f64 textbook Kalman filter (tolerance 2e-3 relative + 2e-3 absolute on the mean; distance 1% + 1e-3), covariance symmetric and positive definite (f64 Cholesky)
 #[cfg(test)]
 mod verif_probe_kalman_box_c07 {
     // Bounded stand-in for "the box filter produces the mean of the standard linear constant-velocity Kalman filter with
@@ -126,6 +126,34 @@ mod verif_probe_kalman_box_c07 {
             for _ in 0..50 { st = f.predict(&st); st = f.update(&st, &still); }
             let p = f.predict(&st);
             if (p.mean[0] - 500.0).abs() > 0.05 || (p.mean[1] - 300.0).abs() > 0.05 || (p.mean[4] - 60.0).abs() > 0.05 { failures.push(format!("{}: kalman_box.stationary_object_stays: predicted ({}, {}, h {})", ctx, p.mean[0], p.mean[1], p.mean[4])); }
+        }
+        // ---- a box that stands still on exactly representable values (every measurement bit-equal to the projected mean: the
+        // innovation is exactly zero) for 8 frames, then accelerates and grows: the covariance must shrink as in the textbook filter,
+        // which shows in the distance of offset boxes at every step and in the means once the box moves
+        for ang in [Some(0.5f32), None] {
+            for (wp, wv) in [(1.0f32 / 20.0, 1.0f32 / 160.0), (0.1, 1.0 / 80.0), (0.5, 0.05)] {
+                let f = Universal2DBoxKalmanFilter::new(wp, wv);
+                let ctx = format!("PROBE input: kalman box standing still at (128, 320, angle {:?}, aspect 1.5, height 64) for 8 frames, then accelerating; weights=({}, {})", ang, wp, wv);
+                let (mut x, mut y, mut h) = (128.0f32, 320.0f32, 64.0f32);
+                let b0 = Universal2DBox::new(x, y, ang, 1.5, h);
+                let mut s = f.initiate(&b0);
+                let mut r = Ref::initiate(wp as f64, wv as f64, z_of(&b0));
+                let before = failures.len();
+                for step in 1..20usize {
+                    if failures.len() > before { break; }
+                    cases += 1;
+                    if step > 8 { let a = (step - 8) as f32; x += 0.75 * a; y -= 0.5 * a; h += 0.25; }
+                    s = f.predict(&s); r.predict();
+                    compare(&ctx, "predict", step, &s, &r, &mut failures);
+                    let z = Universal2DBox::new(x, y, ang, 1.5, h);
+                    for probe in [z.clone(), Universal2DBox::new(x + 3.0 * wp * h, y - 2.0 * wp * h, ang, 1.5, h), Universal2DBox::new(x - 1.0, y + 4.0 * wp * h, ang.map(|a| a + 0.01), 1.5 + 0.01, h * (1.0 + wp))] {
+                        let (dg, dw) = (f.distance(s, &probe) as f64, r.distance(z_of(&probe)));
+                        if !((dg - dw).abs() <= 1e-2 * dw.abs() + 1e-3) { failures.push(format!("{} step={}: kalman_box.distance_is_squared_mahalanobis: distance of the box at ({}, {}, h {}) is {} but the reference gives {}", ctx, step, probe.xc, probe.yc, probe.height, dg, dw)); break; }
+                    }
+                    s = f.update(&s, &z); r.update(z_of(&z));
+                    compare(&ctx, "update", step, &s, &r, &mut failures);
+                }
+            }
         }
         eprintln!("PROBE cases={} nontrivial={}", cases, nontrivial);
         for f in failures.iter().take(12) { eprintln!("{}", f); }
